@@ -355,11 +355,26 @@ class Application(MutableMapping[str | AppKey[Any], Any]):
 
         Should be called after shutdown()
         """
+        apps = [self]
         if self.on_cleanup.frozen:
-            await self.on_cleanup.send(self)
+            receivers = [(cb, self) for cb in self.on_cleanup]
         else:
-            # If an exception occurs in startup, ensure cleanup contexts are completed.
-            await self._cleanup_ctx._on_cleanup(self)
+            # If an exception occurs in startup, ensure cleanup contexts are
+            # completed, also those of sub-applications that did start.
+            for app in apps:
+                apps.extend(app._subapps)
+            receivers = [(app._cleanup_ctx._on_cleanup, app) for app in apps]
+        # One failing step must not keep the others from running.
+        errors: list[BaseException] = []
+        for cb, app in receivers:
+            try:
+                await cb(app)
+            except (Exception, asyncio.CancelledError) as exc:
+                errors.append(exc)
+        if len(errors) == 1:
+            raise errors[0]
+        if errors:
+            raise CleanupError("Multiple errors on cleanup stage", errors)
 
     def _prepare_middleware(self) -> Iterator[Middleware]:
         yield from reversed(self._middlewares)
